@@ -192,15 +192,15 @@ at response, so `a.resStamp < b.invStamp` means "`a` completed before `b` began"
 
 `acceptR h` decides whether some well-formed R-execution explains `h`: whether the map
 step of every operation can be placed between its stamps (plus `daemon` steps anywhere) so
-that every `get` returns what the map holds at its step.  Keys are independent, so the
-question is decided per key.  For one key, a placement exists iff there is a linear order
-`L` of that key's operations such that
+that every `get` returning a value returns what the map holds at its step.  Keys are
+independent, so the question is decided per key.  For one key, a placement exists iff there
+is a linear order `L` of that key's operations such that
   * `L` respects real time: if `a` is before `b` in `L` then `a.invStamp < b.resStamp`;
-  * replaying `L` on a single cell, every `get` returning `some v` finds `some v`.
-In the replay a `get` returning `none` *clears* the cell: `none` can always be explained by a
-`daemon` step just before the get's map step, but that step is a deletion and later reads
-see it (an entry that was observed absent/expired never reappears without a new insert).
-Other daemon steps only ever remove values and so never help to explain a history.
+  * replaying `L` on a single cell (`ins` stores, `del` clears), every `get` returning
+    `some v` finds `some v`.
+A `get` returning `none` imposes no constraint and does not change the cell (filtered
+lookup: R lets any get respond `none`); `daemon` steps only ever remove values and so
+never help to explain a history, hence the replay uses none.
 
 Soundness does not depend on the search: `acceptR` re-checks the order found by the search
 with the independent checker `checkLin`. -/
@@ -220,7 +220,7 @@ def applyOp (cur : Option Val) (a : HOp) : Option (Option Val) :=
   match a.op, a.result with
   | .ins _ v, _ => some (some v)
   | .del _, _ => some none
-  | .get _, none => some none
+  | .get _, none => some cur
   | .get _, some v => if cur = some v then some cur else none
 
 /-- Replay a linear order of one key's operations on the cell. -/
